@@ -75,6 +75,14 @@ CHECKS["C19"] = dict(
     note="Optimizer plug-in type; test universe of three plug-ins with overlapping method sets.",
     design="4 (C19)")
 
+CHECKS["C13"] = dict(
+    text="ConstraintInfo.tla over extended integers: TLC checks violation = distance to the interval, outside a finite bound <=> "
+         "positive violation, and that the violation is determined by the two reported differences, for value x every finite/infinite "
+         "bound mix; each scenario replayed through a plan evaluator step (variable bounds, linear rows, non-linear constraints, with and "
+         "without dyadic transforms) and a 'last' tracker; Trace_C13 compares every reported difference/violation exactly.",
+    note="Integer data; bound differences may be absent only if no variable bound is finite.",
+    design="4 (C13)")
+
 NOT_APPLICABLE = {}
 
 def main():
